@@ -593,7 +593,9 @@ def check_sum_over_parts(rule, db, cfgname, qn, nparams, ptypes, part_call_args,
     for r, m in g.walk(g.body):
         if m["k"] == "return" and m.get("sub") is not None and returns_zero(r) and not (so["status"] == "ok" and g.cfg.dominates(decision_point(g, so["acc"]), g.cfg.pos1(r))):
             fa = at.get(g.cfg.pos1(r), frozenset())
-            if ("true", van) not in fa:
+            no_parts = any((x[0] == "true" and x[1][0] == "mcall" and x[1][1].split("::")[-1] == "empty" and x[1][2] == parts_) or
+                           (x[0] == "==" and ("lit", 0) in x[1:] and any(isinstance(y, tuple) and y[0] == "mcall" and y[1].split("::")[-1] == "size" and y[2] == parts_ for y in x[1:])) for x in fa)
+            if ("true", van) not in fa and not no_parts:
                 probs.append("returns 0 on a path where the function is not known to vanish")
     if probs:
         rule.bad(site, g.loc(), "; ".join(probs), cfgname)
